@@ -17,7 +17,15 @@ alias of the alternative, so `?value`, `http_get_client_options`, `postex_option
 freely): a rule is addressed by the path of block aliases that leads to it from the start symbol (`BUILDER_PATHS`: builder
 class -> alias paths, `_body_of`) or, for the two parts of a data transform, through the un-aliased rules `steps` /
 `termination` / `data_transform`, whose names are the tree names DataTransformBlock.tree builds (section "grammar
-lookups").  A rule that cannot be reached that way makes the obligation undecided.
+lookups").  The alternatives of a rule are read the way they show up in a tree (`_alts`): an un-aliased unit production of a
+rule lark inlines (`?x: y`, `_x: y`) stands for the alternatives of `y`, so a rule that refers to another one instead of
+repeating it, or that is split into named groups, reads the same.  A rule that cannot be reached that way makes the
+obligation undecided.
+
+Class attributes of the builder classes (the statement names bound to a primitive: `createthread = ConfigBlock._enable`) are
+looked up in the class body, its base classes and among the attributes installed after the body ran - by a class decorator
+of the package or by module-level `setattr(Cls, <constant>, v)` / `Cls.name = v` statements, followed with the walker with
+the class as a symbol (`_Interp._late_attrs`); installers that cannot be followed make a failed lookup undecided.
 
 Technique (numbers: ALLOWED devices of RULES_GUIDE.md, "What counts as static here")
   walker  2 (both outcomes of unknown tests; outcome of a symbolic value kept along a path), 3 (terms by substituting
@@ -32,8 +40,9 @@ Technique (numbers: ALLOWED devices of RULES_GUIDE.md, "What counts as static he
   R1   1 (call sites, resolved receiver classes, class-level aliases), 3 (constant names through temporaries), 5 (settings
        loop per BeaconSetting member, value symbolic), 6 (compiled grammar: alias / arity / OPTION terminal, rules reached
        through block-alias paths; opcode tables).
-  R2   1 (constants the producer emits, cstruct field names), 5 (consumer loop per label / field name), 3 (the emitted
-       builder call as a term), 6 (grammar alias and keyword).
+  R2   1 (constants the producer emits, cstruct field names; class attributes incl. those a class decorator / module-level
+       setattr installs, constant names folded - 6), 5 (consumer loop per label / field name), 3 (the emitted builder call
+       as a term), 6 (grammar alias and keyword).
   R3   5 (producer per InjectExecutor member, input symbolic; consumer per produced entry), 3 (the entry of an executor
        with an argument is a text term, lemmas S1-S4 and S6 decide `" " in`, partition, slicing, membership), 6 (grammar
        alias / keyword / arity; reference spelling table), sibling agreement as equality of the builder-call terms.
@@ -73,7 +82,8 @@ Technique (numbers: ALLOWED devices of RULES_GUIDE.md, "What counts as static he
        encoding being R4's / R11's), 4 (container kind: lemma
        K, a dict / set keeps one line per name).
   R6   1, 2 (CFG dominance of the attachment by a non-emptiness condition: truthiness or a spelled-out `len(x) > 0` /
-       `x != []` form), 3 (values the child is fed from).  That an attached data transform has statements is R10's.
+       `x != []` / `bool(x)` form), 3 (values the child is fed from; a test held in a single-definition temporary is read
+       as the expression it was computed from).  That an attached data transform has statements is R10's.
   R7   imported: C03.R6 (rules/c03.py) - its devices are declared there.
   R8   4 (nullness case analysis of the argument: None / not None, nothing else known), 3 (the appended Tree term and its
        child list), sibling agreement as equality of the terms.
@@ -85,6 +95,10 @@ Technique (numbers: ALLOWED devices of RULES_GUIDE.md, "What counts as static he
        by the summary of the primitives), 6 (grammar fact: `data_transform` is not nullable - least fixpoint over the
        compiled rules - so a data-transform block without statements has no text).  Obligations: generation does not
        raise; no child-less block and no statement-less data transform is emitted.
+  R12  imported: C10.R3 (rules/c10.py `r3`) - the text renderer (as_text: reconstruction of the profile's own tree by the
+       module parser; its whitespace post-processor passes every token on unchanged, once, in order; from_text parses the
+       text it is given with the same parser).  Its devices (1, 2, 3, 4, 5, 6) and lemmas are declared there.  Undecided
+       when that rule cannot be imported / evaluated.
 """
 
 from __future__ import annotations
@@ -503,6 +517,7 @@ class _Interp:
         self.events: List[_Ev] = []
         self.flags: Set[str] = set()
         self.yields: List[object] = []
+        self.class_stores: List[Tuple[str, str, object]] = []  # (class, attribute, term) of `Cls.attr = v` stores on package classes
         self.nsteps = 0
         self.depth = 0
         self._globals: Dict[str, object] = {}
@@ -539,6 +554,16 @@ class _Interp:
     def method(self, clsname: str, attr: str, hops=0):
         """-> ("prim", name, None) | ("func", name, Func) | ("const", name, expr) | None for attribute `attr` of a package class."""
         for mn, cnode in self._mro(clsname):
+            late = self._late_attrs(mn, cnode)
+            if attr in late:
+                # installed after the class body ran (class decorator, setattr / attribute store at module level): this is
+                # what the name is bound to, whatever the body said
+                v = late[attr]
+                if isinstance(v, _Attr) and isinstance(v.base, _ClsRef) and hops < 4:
+                    return self.method(v.base.name, v.name, hops + 1)
+                if isinstance(v, _FnRef):
+                    return ("func", attr, v.func)
+                return ("value", attr, v)
             for st in cnode.body:
                 if isinstance(st, (ast.FunctionDef, ast.AsyncFunctionDef)) and st.name == attr:
                     if attr in PRIMS:
@@ -558,6 +583,64 @@ class _Interp:
                             return self.method(c2.split(".")[-1], a2, hops + 1)
                     return ("const", attr, val)
         return None
+
+    def _late_attrs(self, mn: str, cnode: ast.ClassDef) -> Dict[str, object]:
+        """Attributes a package class gets AFTER its body: through its class decorators (functions of the package, followed
+        with the class as a symbol and their constant arguments folded - device 6 / 3: `setattr(cls, <constant>, v)`,
+        `cls.<name> = v`) and through module-level statements of the same two forms on the class's name (alone or in a loop
+        over constants).  attribute -> term.  What cannot be followed is remembered in ctx._c13_late_unknown (class name ->
+        reason): a lookup that then finds nothing does not know that there is nothing."""
+        cache = self.ctx.__dict__.setdefault("_c13_late_attrs", {})
+        key = (mn, cnode.name)
+        if key in cache:
+            return cache[key] or {}
+        cache[key] = None  # busy: lookups made while the class's own decorators are followed see the body only
+        out: Dict[str, object] = {}
+        unknown = self.ctx.__dict__.setdefault("_c13_late_unknown", {})
+        mod = self.ctx.repo.module(mn)
+        late_stmts = []
+        for st in mod.tree.body:
+            if isinstance(st, (ast.FunctionDef, ast.AsyncFunctionDef, ast.ClassDef, ast.Import, ast.ImportFrom)):
+                continue
+            for n in ast.walk(st):
+                if isinstance(n, ast.Call) and dotted(n.func) == "setattr" and n.args and isinstance(n.args[0], ast.Name) and n.args[0].id == cnode.name:
+                    late_stmts.append(st)
+                    break
+                if isinstance(n, ast.Attribute) and isinstance(n.ctx, ast.Store) and isinstance(n.value, ast.Name) and n.value.id == cnode.name:
+                    late_stmts.append(st)
+                    break
+        if cnode.decorator_list or late_stmts:
+            it = _Interp(self.ctx, mn, _Oracle(), {"descend_func": lambda f: True})
+            try:
+                me = _ClsRef(cnode.name)
+                for d in reversed(cnode.decorator_list):
+                    dv = it.eval(d, {})
+                    if not isinstance(dv, (_FnRef, _Closure)):
+                        raise Unknown(f"class decorator {src(d)[:40]} is not a function of the package")
+                    got = it.invoke(dv.func.node, [me], {}, None, modname=dv.func.module.name) if isinstance(dv, _FnRef) else it.call(dv, [me], {}, d)
+                    if not (isinstance(got, _ClsRef) and got.name == cnode.name):
+                        raise Unknown(f"class decorator {src(d)[:40]} does not return the class")
+                env: dict = {}
+                for st in late_stmts:
+                    it.stmt(st, env)
+                if it.oracle.made:
+                    raise Unknown("attributes are installed under a test whose outcome is not a constant")
+                for ev in it.events:
+                    if isinstance(ev.recv, _Glob) and ev.recv.name == "setattr" and ev.args and isinstance(ev.args[0], _ClsRef) and ev.args[0].name == cnode.name:
+                        if len(ev.args) != 3 or not isinstance(ev.args[1], str):
+                            raise Unknown("setattr on the class with a name that is not a constant")
+                        it.class_stores.append((cnode.name, ev.args[1], ev.args[2]))
+                for cname, attr, v in it.class_stores:
+                    if cname == cnode.name:
+                        out[attr] = v
+            except (Unknown, _Raised, _Return, _Break, _Continue) as e:
+                unknown[cnode.name] = str(e) or type(e).__name__
+                out = {}
+            except Exception as e:  # a construct the walker mishandles: nothing is claimed
+                unknown[cnode.name] = f"walker failure {type(e).__name__}: {e}"[:120]
+                out = {}
+        cache[key] = out
+        return out
 
     def glob(self, name: str):
         if name in self._globals:
@@ -1094,6 +1177,8 @@ class _Interp:
                 return base.attrs[name]
             if base.cls is not None:
                 m = self.method(base.cls, name)
+                if m is not None and m[0] == "value" and not _has_opaque(m[2]):
+                    return m[2]
                 if m is not None and m[0] == "const":
                     try:
                         return self.eval(m[2], {})
@@ -1102,6 +1187,8 @@ class _Interp:
             return _Attr(base, name)
         if isinstance(base, _ClsRef):
             m = self.method(base.name, name)
+            if m is not None and m[0] == "value" and not _has_opaque(m[2]):
+                return m[2]
             if m is not None and m[0] == "const":
                 try:
                     v = self.eval(m[2], {})
@@ -1461,6 +1548,8 @@ class _Interp:
             base = self.eval(t.value, env)
             if isinstance(base, _Obj):
                 base.attrs[t.attr] = v
+            elif isinstance(base, _ClsRef):
+                self.class_stores.append((base.name, t.attr, v))
             elif not _opaque(base):
                 raise Unknown("attribute store on data")
         elif isinstance(t, ast.Subscript):
@@ -1758,6 +1847,29 @@ def _gcache(g: Grammar) -> dict:
     return c
 
 
+def _alts(g: Grammar, origin: str, _seen=None) -> list:
+    """The alternatives of rule `origin` as they can show up in a parse tree: an alternative without an alias that is a
+    unit production `x: y` of a rule lark inlines (`?x` with its single child, `_x` always) leaves no node of its own -
+    the node is the one the alternatives of `y` make - so it stands for the alternatives of `y` (followed transitively;
+    a rule that was a copy of another one and now refers to it, or a rule split into named groups of alternatives, reads
+    the same).  Every other alternative is returned as it is."""
+    seen = _seen if _seen is not None else set()
+    if origin in seen:
+        return []
+    seen.add(origin)
+    out = []
+    for r in g.alternatives(origin):
+        # (`?x: y*` keeps its own node unless there is exactly one y: only `_x` is transparent over a repetition helper)
+        transparent = r.alias is None and len(r.expansion) == 1 and not r.expansion[0].is_term and \
+            (origin.startswith("_") or (r.expand1 and not r.expansion[0].name.startswith("__")))
+        if transparent:
+            for o in sorted(g.expand_star(r.expansion[0].name)):
+                out += _alts(g, o, seen)
+        else:
+            out.append(r)
+    return out
+
+
 def _top_origins(g: Grammar) -> Set[str]:
     """The rule(s) whose alternatives are the top-level statements: the body of the start symbol (the start symbol is an
     option of the Lark.open call / lark's default and the name of the root node)."""
@@ -1766,7 +1878,7 @@ def _top_origins(g: Grammar) -> Set[str]:
         start = g.options.get("start", "start")
         out: Set[str] = set()
         for s in (start if isinstance(start, (list, tuple)) else [start]):
-            for r in g.alternatives(s):
+            for r in _alts(g, s):
                 out |= g.body_origins(r)
         c["top"] = out
     return set(c["top"])
@@ -1783,7 +1895,7 @@ def _body_of(g: Grammar, path) -> Set[str]:
         for alias in path:
             nxt: Set[str] = set()
             for o in sorted(origins):
-                for r in g.alternatives(o):
+                for r in _alts(g, o):
                     if r.alias == alias and g.is_block(r):
                         nxt |= g.body_origins(r)
             origins = nxt
@@ -1804,7 +1916,7 @@ def _origins_of(g: Grammar, cls: str) -> List[str]:
 def _part_origins(g: Grammar, part: str) -> List[str]:
     """The rule(s) whose alternatives are the statements of a data transform's `steps` / `termination` part."""
     out: Set[str] = set()
-    for r in g.alternatives(part):
+    for r in _alts(g, part):
         out |= g.body_origins(r)
     return sorted(out)
 
@@ -1813,7 +1925,7 @@ def aliases_of(g: Grammar, origins) -> Dict[str, Set[int]]:
     """alias -> set of string arities, over the non-block alternatives of the given rules."""
     out: Dict[str, Set[int]] = {}
     for o in origins:
-        for r in g.alternatives(o):
+        for r in _alts(g, o):
             if r.alias and not g.is_block(r):
                 out.setdefault(r.alias, set()).add(g.string_arity(r))
     return out
@@ -1823,14 +1935,14 @@ def block_aliases_of(g: Grammar, origins) -> Dict[str, Set[str]]:
     """block alias -> the rule(s) of the block's body, over the block alternatives of the given rules."""
     out: Dict[str, Set[str]] = {}
     for o in origins:
-        for r in g.alternatives(o):
+        for r in _alts(g, o):
             if r.alias and g.is_block(r):
                 out.setdefault(r.alias, set()).update(g.body_origins(r))
     return out
 
 
 def _alternatives_of(g: Grammar, origins) -> list:
-    return [r for o in origins for r in g.alternatives(o)]
+    return [r for o in origins for r in _alts(g, o)]
 
 
 def _nullable(g: Grammar, origin: str) -> bool:
@@ -1872,7 +1984,9 @@ def run(ctx):
         "add_termination attach the argument in both nullness cases as required; blocks are attached only when non-empty "
         "(CFG dominance); for every sequence-valued setting the case of a value without entries is followed: generation must "
         "not raise and neither a child-less block nor a data-transform block without statements (not derivable from the "
-        "grammar) may reach the returned profile."
+        "grammar) may reach the returned profile; the text of the profile is the reconstruction of that tree with every token "
+        "passed on unchanged by the whitespace post-processor of as_text, and from_text parses the text it is given (R12 = the "
+        "obligations of C10.R3: a rewrite of the laid-out line also rewrites the inside of quoted values)."
     )
     rep.not_decided = ["equality of the parsed-back values for all configurations", "options the generator chooses to skip",
                        "escaping of static header/parameter decorations (raw text on both sides of the round trip)",
@@ -1887,7 +2001,9 @@ def run(ctx):
                        "equality of two different encodings of the same argument in sibling settings (undecided; each is judged by R4)",
                        "interaction of several entries of one program beyond a BUILD entry followed by a step (order, repetition): "
                        "only the per-entry effect and the kind of container the lines are collected in are judged",
-                       "the text rendering of the built tree (as_text / reconstructor): see C11 / C12"]
+                       "the text rendering of the built tree beyond token preservation by as_text / from_text (R12 = C10.R3): the keywords lark's reconstructor writes for a "
+                       "tree node (C10.R1) and the literal encoding of values (C11 / C12)",
+                       "R2: attributes installed on a builder class by code the walker cannot follow (a decorator from outside the package, computed names): a failed lookup is undecided"]
     rep.trusted_base = ["lark grammar loader", "CPython ast", "reference BeaconGate/opcode/executor-spelling tables (csverif.tables, _CS_SPELLING, _ARG_EXECUTORS, _DECORATIONS)",
                         "the symbolic walker of rules/c13.py (path-wise value flow; models builtin containers the code builds, nothing is computed from unknown data)",
                         "summary of the ConfigBlock primitives used for `block.tree.children` tests: set_option / _enable / set_config_block add one child, a pair primitive one per line, "
@@ -1913,6 +2029,9 @@ def run(ctx):
                         "`data_transform` of a data transform; _SEQUENCE_SETTINGS (settings whose value is a list of entries; reference: the list-returning producers of beacon.SETTING_TO_PRETTYFUNC); "
                         "the value of such a setting is a Python list (so the empty one equals [])",
                         "length facts: a sequence that holds the entries of a case has length >= their number; the empty sequence has length 0",
+                        "lark tree shaping: an un-aliased unit production of a `?rule` (single child) or `_rule` leaves no node of its own, the node is the one its child makes (`_alts`)",
+                        "python class construction: class decorators are applied bottom-up to the finished class; setattr(C, name, v) / C.name = v bind the attribute after the body",
+                        "R12 re-emits the obligations of rules/c10.py `r3` (C10.R3); its trusted base (lark Reconstructor.reconstruct / postproc contract, lemmas L1-L4, LT, LX, assumptions A1, A2) applies",
                         "nullness / type-tag facts: a value that is not None is not `None`; a bytes / str / int value is not the object True / False and is unequal to values of unrelated builtin types"]
     g = Grammar(ctx.repo)
     r1(ctx, g)
@@ -1927,6 +2046,40 @@ def run(ctx):
     from rules import c03
 
     c03.r6(ctx, rule="R7")
+    r12(ctx, g)
+
+
+# ---------------------------------------------------------------------------- R12
+def r12(ctx, g=None):
+    """The *text* of the generated profile is the rendering of the tree the generator built, token for token: the profile
+    states the configured values only if C2Profile.as_text returns the reconstruction of the profile's own tree by the
+    module's parser, the whitespace post-processor handed to the reconstructor passes every token of the stream on
+    unchanged, once and in order (a rewrite of the laid-out line - replace / strip / case mapping on the joined text or on
+    an item - also rewrites the inside of a quoted value: the text stays valid but no longer states the user agent,
+    header or transform argument of the configuration), and from_text parses the very text it is given with the same
+    parser.  These are the obligations of C10.R3 (rules/c10.py `r3`: inductive value-flow argument over one iteration of
+    the post-processor's loop; its devices and trusted base are declared there); they are necessary conditions of this
+    property as well and are re-emitted here under R12.  Undecided when that rule cannot be evaluated."""
+    where = ctx.repo.func("c2profile.C2Profile.as_text") if ctx.repo.has_func("c2profile.C2Profile.as_text") else "c2profile.py"
+    text = "token preservation of the text renderer"
+    try:
+        from rules import c10
+
+        fn = c10.r3
+    except Exception as e:  # the other module is not loadable at the moment: nothing is claimed
+        ctx.undecided("R12", "TAINT", where, text, f"rules/c10.py `r3` (C10.R3) cannot be imported: {type(e).__name__}: {e}"[:300])
+        return
+    from csverif import AnalysisError
+
+    try:
+        n = ctx.import_obligations("R12", fn, g)
+    except AnalysisError:
+        raise
+    except Exception as e:
+        ctx.undecided("R12", "TAINT", where, text, f"rules/c10.py `r3` (C10.R3) failed: {type(e).__name__}: {e}"[:300])
+        return
+    if not n:
+        ctx.undecided("R12", "TAINT", where, text, "C10.R3 recorded no obligation: the renderer and its post-processor were not located")
 
 
 # ---------------------------------------------------------------------------- R1
@@ -2158,7 +2311,7 @@ def r2(ctx, g: Grammar):
         ctx.undecided("R2", "VOCAB", prod, "group labels", "the group labels (All/Comms/Core/Cleanup) the producer emits cannot be located as constants")
     cons = ctx.repo.func("c2profile.BeaconGateBlock.from_beacon_gate_option_strings")
     ps = params(cons.node)
-    attrs = ctx.repo.class_attrs("c2profile.BeaconGateBlock")
+    lookup = _Interp(ctx, "c2profile", _Oracle())
     n = 0
     for s in sorted(labels) + fields:
         n += 1
@@ -2183,9 +2336,15 @@ def r2(ctx, g: Grammar):
             ok = r is not None and kw == s and PRIM_ARITY[prim] == 0
             ctx.ob("R2", "VOCAB", cons, f"option {s}", ok,
                    f"producer can emit {s!r}; consumer emits tree {name!r} with {prim}; grammar alias " + (f"exists with keyword {kw!r}" if r is not None else "does NOT exist (as_text() raises)") + f" (required keyword {s!r}, no argument)")
-            # and the builder class has that attribute
-            if name not in attrs:
-                ctx.ob("R2", "VOCAB", "c2profile.py::BeaconGateBlock", f"attribute {name}", False, f"builder has no attribute {name!r} for option {s!r}")
+            # and the builder class has that attribute (in its body, in a base class, or installed by a class decorator /
+            # a module-level setattr - `_late_attrs`)
+            if lookup.method("BeaconGateBlock", name) is None:
+                why = {c: w for c, w in ctx.__dict__.get("_c13_late_unknown", {}).items() if any(c == k.name for _m, k in lookup._mro("BeaconGateBlock"))}
+                if why:
+                    ctx.undecided("R2", "VOCAB", "c2profile.py::BeaconGateBlock", f"attribute {name}",
+                                  f"no attribute {name!r} in the class bodies, but attributes may be installed by code that is not followed: " + "; ".join(f"{c}: {w}" for c, w in sorted(why.items()))[:300])
+                else:
+                    ctx.ob("R2", "VOCAB", "c2profile.py::BeaconGateBlock", f"attribute {name}", False, f"builder has no attribute {name!r} for option {s!r}")
     ctx.rep.count("beacon_gate_vocabulary", n, floor=27)
 
 
@@ -3277,14 +3436,29 @@ def _nonempty_polarity(test: ast.AST, subject: str, suffix: str = ".tree.childre
     return None
 
 
+def _test_forms(f, test: ast.AST, keep=()) -> list:
+    """A branch test as written and with its single-definition temporaries substituted (`has_content = bool(x.tree.children)
+    ... if has_content:` is the test `bool(x.tree.children)`); the names in `keep` (the subject the caller looks for) are
+    left alone."""
+    out = [test]
+    try:
+        e = inline(f.node, test, stop=frozenset(keep))
+    except Exception:
+        e = None
+    if e is not None and src(e) != src(test):
+        out.append(e)
+    return out
+
+
 def _guarded_nonempty(ctx, f, call: ast.Call, child: Optional[ast.AST]) -> bool:
     if child is None:
         return False
     subj = src(child)
     for _t, pol, node in dominating_conditions(ctx, f, call):
-        p = _nonempty_polarity(node, subj)
-        if p is not None and p == pol:
-            return True
+        for test in _test_forms(f, node, {n.id for n in ast.walk(child) if isinstance(n, ast.Name)}):
+            p = _nonempty_polarity(test, subj)
+            if p is not None and p == pol:
+                return True
     return False
 
 
@@ -3362,13 +3536,16 @@ def r6(ctx):
 
         def _truthy_guard(node):
             from csverif.astutil import disjuncts
-            names = [dotted(x) for x in disjuncts(node)]
-            return all(nm is not None and nm in relevant for nm in names)
+            for test in _test_forms(f, node, {nm.split(".")[0] for nm in relevant}):
+                names = [dotted(x.args[0]) if isinstance(x, ast.Call) and dotted(x.func) == "bool" and len(x.args) == 1 and not x.keywords else dotted(x) for x in disjuncts(test)]
+                if all(nm is not None and nm in relevant for nm in names):
+                    return True
+            return False
 
         dom = dominating_conditions(ctx, f, c)
         conds = [(t, node) for t, pol, node in dom if pol]
         # ... or a spelled-out non-emptiness test of one of those collections: len(x) > 0, x != [] ...
-        spelled = any(_nonempty_polarity(node, nm, "") == pol for _t, pol, node in dom for nm in relevant if not isinstance(node, ast.Name))
+        spelled = any(_nonempty_polarity(test, nm, "") == pol for _t, pol, node in dom for test in _test_forms(f, node, {nm.split(".")[0] for nm in relevant}) for nm in relevant if not isinstance(test, ast.Name))
         guarded = any(_truthy_guard(node) for _t, node in conds) or spelled or _guarded_nonempty(ctx, f, c, child_e)
         ok = ccls == "DataTransformBlock" or guarded
         nm = _call_arg(c, 0, "option")
